@@ -33,6 +33,9 @@ func wantAugmented(augment string) bool {
 	return err == nil && v == 1
 }
 
+// handlerHung: a request did not return; later ones are not attempted
+var handlerHung bool
+
 // abortFirst: the next request is preceded by one whose client disconnects mid-page
 var abortFirst bool
 
@@ -84,7 +87,33 @@ func emitHandlerBig(id, method, maxmem, augment, similarity string, dlen int) {
 		n0 := runtime.NumGoroutine()
 		req := httptest.NewRequest(method, "/debug?"+q.Encode(), nil)
 		w := httptest.NewRecorder()
-		webstack.SnapshotHandler(w, req)
+		if handlerHung {
+			complete = "H"
+			return
+		}
+		// the handler must answer: a request that blocks forever is reported, not waited for
+		doneCh := make(chan string, 1)
+		go func() {
+			defer func() {
+				if e := recover(); e != nil {
+					doneCh <- "P"
+					return
+				}
+				doneCh <- ""
+			}()
+			webstack.SnapshotHandler(w, req)
+		}()
+		select {
+		case r := <-doneCh:
+			if r == "P" {
+				complete = "P"
+				return
+			}
+		case <-time.After(30 * time.Second):
+			handlerHung = true
+			complete = "H"
+			return
+		}
 		n1 := runtime.NumGoroutine()
 		status = w.Code
 		if status == 200 {
@@ -116,7 +145,12 @@ func emitHandlerBig(id, method, maxmem, augment, similarity string, dlen int) {
 			if !bytes.HasPrefix(body, []byte("<!DOCTYPE html>")) || bytes.Count(body, []byte("<!DOCTYPE")) != 1 || bytes.Count(body, []byte(`id="content"`)) != 1 {
 				complete = "0"
 			}
-			if n0 == n1 && sum != n0 {
+			// (the goroutine running the handler is part of the dump; a capture cut by maxmem accounts for fewer)
+			cutByMaxmem := false
+			if mm, err := strconv.Atoi(maxmem); err == nil && dlen > 0 && mm < dlen {
+				cutByMaxmem = true
+			}
+			if n0 == n1 && sum != n0+1 && !cutByMaxmem {
 				complete = "0"
 			}
 			// the parked goroutines of this harness have sources on disk: their arguments are typed iff augment is on
@@ -169,6 +203,14 @@ func opHandler(r *rand.Rand, n int, tier string) {
 	for k, mm := range []int{dlen + 4096, dlen + 200000, 2 << 20, 3<<20 + 12345, 64 << 20} {
 		if mm > dlen {
 			emitHandlerBig(fmt.Sprintf("handler-big-%d", k), "GET", strconv.Itoa(mm), "0", "anyvalue", dlen)
+		}
+	}
+	// a buffer limit below the size of the dump: the capture is cut (possibly mid-line: a legitimate 500),
+	// and the handler must keep answering afterwards
+	for k, mm := range []int{1<<20 + 1, 1<<20 + 4097, 1<<20 + 77777, dlen - 10, dlen - 1} {
+		if mm >= 1<<20 && mm < dlen {
+			emitHandlerBig(fmt.Sprintf("handler-cut-%d", k), "GET", strconv.Itoa(mm), "0", "anyvalue", dlen)
+			emitHandlerBig(fmt.Sprintf("handler-after-cut-%d", k), "GET", strconv.Itoa(dlen+4096), "0", "anypointer", dlen)
 		}
 	}
 	close(stop)
